@@ -70,6 +70,18 @@ FAMILIES = {
             "HV": ("struct HV { VF lanes; int id; };", "struct HV;", ["VF"], []),
             "HHV": ("struct HHV { struct HV h[2]; struct W *w; };", "struct HHV;", ["HV"], ["W"]),
         }},
+    # a struct that is forward declared and typedef'd before its definition and gets its float / array facts only
+    # through a member of an earlier struct: the fact reaches the users of the typedef on a re-visit, not on the first sweep
+    "fwdtypedef": {
+        "lang": "c++", "flags": [],
+        "decls": {
+            "Y": ("struct Y { float f; int big[40]; };", "struct Y;", [], []),
+            "X": ("struct X { Y y; };", "struct X;", ["Y"], []),
+            "XT": ("typedef X XT;", None, [], ["X"]),
+            "XTT": ("typedef XT XTT;", None, [], ["XT"]),
+            "D": ("struct D { XT x; };", "struct D;", ["X", "XT"], []),
+            "DD": ("struct DD { D d[2]; XTT inner; XT* p; };", "struct DD;", ["D", "X", "XTT"], []),
+        }},
     "templates": {
         "lang": "c++", "flags": [],
         "decls": {
